@@ -8,7 +8,7 @@ props = {json.loads(l)["id"]: json.loads(l) for l in open("/verif/properties.jso
 
 T = {
  "C01": ("VCell (TLC: Final/Closed/Euler/Oriented/InsideCurrent on exhaustive small lattices, all orders of equidistant candidates, + seeded larger lattices) -> cells replayed into the code under 4+ similarity embeddings and compared (volume, centroid, vertices, faces); builder steps recorded through hooks validated by VCellTrace",
-         "exact oracle only on integer-lattice inputs of bounded size; tolerance 1e-9*scale + 2^12 ulp; split edges (finding F2, repaired by fc140e4) are followed by VCell.NewPoint / VCellTrace to the end of the history", "DESIGN.md §5 C01"),
+         "exact oracle only on integer-lattice inputs of bounded size; tolerance 1e-9*scale + 2^12 ulp; split edges (finding F2, frequent form repaired by eb81dbb) are followed by VCell.NewPoint / VCellTrace to the end of the history; residual F2 classified by VCellTrace ('discord')", "DESIGN.md §5 C01"),
  "C02": ("VCell lattice pipeline (1D/2D/3D, periodic/reflective, anisotropic, offsets, scales 1e-6..2e14): every measure > 0 and the sum = box measure; pipeline F: VTessTrace.VolChecks on quantised volumes of seeded float inputs",
          "sum identity checked per embedded run; quantisation 2^-26", "DESIGN.md §5 C02"),
  "C03": ("VTess model-checked (StoredOnce, StoredAtMostOnce, ListedBy*, all masks, reciprocal inputs incl. self-images); recorded non-symmetric face integrals of both sides validated by VTessTrace.RecipChecks on quantised areas/centroids/normals; numeric check at the 1e-9 threshold and antisymmetric flux in the harness",
@@ -16,7 +16,7 @@ T = {
  "C04": ("lattice pipeline: normals vs spec normal -N/|N|, closure and divergence identities per cell on every embedding; pipeline F: the same identities on seeded float inputs under masks (tess recorder)",
          "identities hold up to the stated tolerance", "DESIGN.md §5 C04"),
  "C05": ("lattice pipeline in release AND dev profile on the degenerate families the lattice consists of (points on box faces/edges/corners, collinear, coplanar, co-spherical): no panic, finite, C01-C04 comparisons; every recorded clip decision validated against the exact Side sign by VCellTrace",
-         "finding F2 (split edges) was repaired by fc140e4 and is no longer excused; failures on inputs with generators closer than 1e-7 of the box (or three mutually closer than 1e-4) are the open known finding F11; the tie breaker (exact predicate) is replayed on TLC's vectors in both profiles", "DESIGN.md §5 C05"),
+         "the frequent form of finding F2 (split edges) was repaired by eb81dbb; its residual (tie decisions that give a removed set which is not a disc) is classified by VCellTrace ('discord') and stays an open known finding; failures on inputs with generators closer than 1e-7 of the box (or three mutually closer than 1e-4) are the open known finding F11; the tie breaker (exact predicate) is replayed on TLC's vectors in both profiles", "DESIGN.md §5 C05"),
  "C06": ("VCell periodic (all 3^d images as candidates; PeriodicNoWalls, ShiftLattice) -> replay; second route: real non-periodic build of the replicated set, central block; bitwise k*width shifts; translation invariance",
          "periodic lattices up to period 4 (integer range of TLC)", "DESIGN.md §5 C06"),
  "C07": ("VTess model-checked over all masks; every masked run validated by VTessTrace.MaskChecks against the full run of the same input (bit tokens for cells, plane signatures, per-cell face sets) and re-executed face rule",
@@ -76,7 +76,7 @@ man = {
               "kind_free_text": "python driver (vv, vvlib.py, vvchecks.py): TLC on /verif/spec/*.tla + Rust conformance harness /verif/harness (spec->impl replay, impl->spec trace validation)"}],
  "checks": checks,
  "not_applicable": na,
- "notes": "fix: commits in /repo: 9aa5d8b (F5), 8b19079 (F4), e99813a (F8), ae14f4d (F1), a175b66 (F9), 30592d2 (F6), 9097a8c (F7), fc140e4 (F2), 3fe32e1 (F13); open known finding F11 (tight clusters) and the list of fixed ones in /verif/known_findings.json; seeded changes used to test sensitivity in /verif/seeded",
+ "notes": "fix: commits in /repo: 9aa5d8b (F5), 8b19079 (F4), e99813a (F8), ae14f4d (F1), a175b66 (F9), 30592d2 (F6), 9097a8c (F7), eb81dbb (F2, frequent form), c277ceb (F13); open known findings F2 (residual), F11 (tight clusters), F14 (co-spherical shells) and the list of fixed ones in /verif/known_findings.json; seeded changes used to test sensitivity in /verif/seeded",
 }
 json.dump(man, open("/verif/MANIFEST.json", "w"), indent=1)
 print("checks:", [c["property_id"] for c in checks], "n/a:", [x["property_id"] for x in na])
